@@ -116,7 +116,7 @@ theorem unitInfo_of {P : Prog} {i : Nat} {d : UnitDecl} (h : P.units[i]? = some 
 theorem unitProg_of {P : Prog} {i : Nat} {d : UnitDecl} (h : P.units[i]? = some d) : unitProg P i = d.prog := by
   simp [unitProg, h]
 
-theorem inv_doMk {F : Facts} {P : Prog} {st : St} (hc : F.appendCopies = true)
+theorem inv_doMk {F : Facts} {P : Prog} {st : St} (hc : F.appendCopies = true) (hi : F.initInstalls = true)
     (inv : Inv F P st) (i : Nat) : Inv F P (doMk F P st i) := by
   unfold doMk
   split
@@ -133,7 +133,12 @@ theorem inv_doMk {F : Facts} {P : Prog} {st : St} (hc : F.appendCopies = true)
       · -- init
         rename_i s hk
         split
-        · rename_i hs
+        · rename_i hs'
+          have hs : s.arr < P.arrays.length := by
+            simp only [Bool.and_eq_true, decide_eq_true_eq] at hs'
+            exact hs'.1
+          have hctx : initCtx F P st d s = ⟨s, d.info⟩ := by simp [initCtx, hi]
+          rw [hctx]
           obtain ⟨ext, hext⟩ := inv.heapPre
           refine ⟨inv.heapPre, ?_, ?_, inv.log⟩
           · intro j c hj
@@ -304,6 +309,7 @@ theorem inv_doStep {F : Facts} {P : Prog} {st : St} (ho : F.onCopies = true)
   · exact inv
 
 theorem inv_runFrom {F : Facts} {P : Prog} (hc : F.appendCopies = true) (ho : F.onCopies = true)
+    (hi : F.initInstalls = true)
     (evs : List Ev) : ∀ st, Inv F P st → Inv F P (runFrom F P st evs) := by
   induction evs with
   | nil => intro st h; exact h
@@ -311,12 +317,13 @@ theorem inv_runFrom {F : Facts} {P : Prog} (hc : F.appendCopies = true) (ho : F.
     intro st h
     apply ih
     cases e with
-    | mk i => exact inv_doMk hc h i
+    | mk i => exact inv_doMk hc hi h i
     | step i => exact inv_doStep ho h i
 
 theorem inv_run {F : Facts} {P : Prog} (hc : F.appendCopies = true) (ho : F.onCopies = true)
+    (hi : F.initInstalls = true)
     (evs : List Ev) : Inv F P (run F P evs) :=
-  inv_runFrom hc ho evs _ (inv_init F P)
+  inv_runFrom hc ho hi evs _ (inv_init F P)
 
 /-! ### counting in the rendered trace -/
 
